@@ -4,6 +4,7 @@ CONSTANTS
   Unwrapped = {}
   DepthRestore = "parent"
   ContextDropped = FALSE
+  CloseFailure = "logged"
 INIT Init
 NEXT Next
 INVARIANTS
@@ -13,5 +14,6 @@ INVARIANTS
   AssertionIffNoError
   ErrorShape
   BombRefused
+  BodyLife
   Emit
 CHECK_DEADLOCK TRUE
